@@ -142,26 +142,26 @@ func HelperMain() {
 		<-c
 		time.Sleep(time.Duration(ms) * time.Millisecond)
 		// record when this process was about to be gone (checked against the end of the run that started it)
-		os.WriteFile(args[1]+".exit", []byte(fmt.Sprint(vlib.MonoNow())), 0o666)
+		writeAtomic(args[1]+".exit", []byte(fmt.Sprint(vlib.MonoNow())))
 		os.Exit(0)
 	case "trapquit":
 		writePid(args[1])
 		c := make(chan os.Signal, 1)
 		signal.Notify(c, syscall.SIGQUIT)
 		// from here on the interrupt is recorded; before, it ends the process the default way
-		os.WriteFile(args[1]+".ready", []byte(fmt.Sprint(vlib.MonoNow())), 0o666)
+		writeAtomic(args[1]+".ready", []byte(fmt.Sprint(vlib.MonoNow())))
 		<-c
-		os.WriteFile(args[1]+".quit", []byte(fmt.Sprint(vlib.MonoNow())), 0o666)
+		writeAtomic(args[1]+".quit", []byte(fmt.Sprint(vlib.MonoNow())))
 		os.Exit(0)
 	case "ignorequit":
 		writePid(args[1])
 		c := make(chan os.Signal, 4)
 		signal.Notify(c, syscall.SIGQUIT)
-		os.WriteFile(args[1]+".ready", []byte(fmt.Sprint(vlib.MonoNow())), 0o666)
+		writeAtomic(args[1]+".ready", []byte(fmt.Sprint(vlib.MonoNow())))
 		first := true
 		for range c {
 			if first {
-				os.WriteFile(args[1]+".quit", []byte(fmt.Sprint(vlib.MonoNow())), 0o666)
+				writeAtomic(args[1]+".quit", []byte(fmt.Sprint(vlib.MonoNow())))
 				first = false
 			}
 		}
@@ -197,9 +197,19 @@ func HelperMain() {
 	}
 }
 
+// writeAtomic: marker files are read by the harness while helpers are being stopped; a reader
+// must see either no file or the complete one (a helper killed between create and write would
+// otherwise leave an empty file behind).
+func writeAtomic(path string, data []byte) {
+	tmp := fmt.Sprintf("%s.tmp%d", path, os.Getpid())
+	if os.WriteFile(tmp, data, 0o666) == nil {
+		os.Rename(tmp, path)
+	}
+}
+
 // Token identifies helper processes of this harness run in /proc/<pid>/cmdline checks.
 func writePid(file string) {
-	os.WriteFile(file, []byte(fmt.Sprintf("%d %d", os.Getpid(), vlib.MonoNow())), 0o666)
+	writeAtomic(file, []byte(fmt.Sprintf("%d %d", os.Getpid(), vlib.MonoNow())))
 }
 
 // PidAlive reports whether the process recorded in file (by writePid) still
